@@ -44,6 +44,8 @@ CLAIMS = {
          "eligible_to_spend is false for Reverted; Reverted value feeds only amount_reverted; mark_unspent/mark_spent/mark_reverted have exactly the statement's transition tables; in a refresh mark_reverted needs (absent from node, not coinbase, log id in reverted_kernels) and a kernel counts as reverted only on the node's Ok(None); re-confirmation restores the entry. Fork histories are not decided."),
  "C19": ("per-criterion table: query field -> entry fields and normalised comparison operator, extracted from the filter closures; path enumeration of the None edges; account predicate", "4 C19",
          "Each of the 18 query fields is read by exactly one filter closure that compares the documented entry field(s) with the documented inclusive operator / variant set, returns true when the criterion is absent, and both query paths restrict to the account argument (two defects repaired); limit, sort field and direction are applied; legacy look-ups compare id / slate id. Sort stability is not decided."),
+ "C08": ("codec automata (NFA inclusion writer subset-of reader over primitive ops) + flag/field tables + path-enumerated enum tables + conversion field maps + serde default/skip shape matching + sibling constant sets + truncating-cast guards", "4 C08",
+         "For 19 Writeable/Readable pairs every token string the writer can emit is accepted by the reader (and conversely for fixed layouts); each optional-field flag is set from, guards and is read into the same field; the u8/string/enum tables are mutually inverse bijections; Slate<->SlateV4 field maps are total and inverse; every skip_serializing_if has a default satisfying it; the sets of kernel features that carry arguments agree across siblings (3 known findings: NRD / tx_from_slate_v4); length prefixes are bound-checked (2 defects repaired). Value-level equality of round trips is not decided."),
 }
 
 checks = []
